@@ -380,6 +380,8 @@ TWO_CHAR = {'//', '::', ':=', '!=', '<=', '>=', '<<', '>>', '||', '=>', '..', '(
 def lex(version, text):
     """-> list of (kind, text) or None"""
     rx = _TOKEN_10 if version == '1.0' else _TOKEN
+    if 'Q{' in text or '(:' in text:
+        return None
     pos = 0
     out = []
     while pos < len(text):
